@@ -118,6 +118,19 @@ scenario('non-literal argument', {'a.lua': body(1, [])}, b'local n = "a"\nrequir
 scenario('three arguments', {'a.lua': body(1, [])}, b'require("a", {use_game_loop=true}, 1)\n', [], must_fail=True)
 scenario('unknown option', {'a.lua': body(1, [])}, b'require("a", {other=true})\n', [], must_fail=True)
 scenario('option not a boolean', {'a.lua': body(1, [])}, b'require("a", {use_game_loop=1})\n', [], must_fail=True)
+scenario('option is a string', {'a.lua': body(1, [])}, b'require("a", {use_game_loop="true"})\n', [], must_fail=True)
+scenario('option is nil', {'a.lua': body(1, [])}, b'require("a", {use_game_loop=nil})\n', [], must_fail=True)
+scenario('option is a variable', {'a.lua': body(1, [])}, b'local t = true\nrequire("a", {use_game_loop=t})\n', [], must_fail=True)
+scenario('no argument', {'a.lua': body(1, [])}, b'require()\n', [], must_fail=True)
+scenario('second argument is a number', {'a.lua': body(1, [])}, b'require("a", 1)\n', [], must_fail=True)
+scenario('second argument is a string', {'a.lua': body(1, [])}, b'require("a", "use_game_loop")\n', [], must_fail=True)
+scenario('second argument is a variable', {'a.lua': body(1, [])}, b'local o = {use_game_loop=true}\nrequire("a", o)\n', [], must_fail=True)
+scenario('two options', {'a.lua': body(1, [])}, b'require("a", {use_game_loop=true, use_game_loop=false})\n', [], must_fail=True)
+scenario('known and unknown option', {'a.lua': body(1, [])}, b'require("a", {use_game_loop=true, other=1})\n', [], must_fail=True)
+scenario('positional option', {'a.lua': body(1, [])}, b'require("a", {true})\n', [], must_fail=True)
+scenario('empty options table', {'a.lua': body(1, [])}, b'require("a", {})\n', [], must_fail=True)
+scenario('first argument is a concatenation', {'a.lua': body(1, [])}, b'require("a" .. "")\n', [], must_fail=True)
+scenario('first argument is a number', {'a.lua': body(1, [])}, b'require(1)\n', [], must_fail=True)
 shutil.rmtree(work, ignore_errors=True)
 print(json.dumps({'n': n, 'bad': bad[:10]}))
 '''
